@@ -153,7 +153,10 @@ func histCheck(id, title string, force, crash int, explain string) *checkDef {
 			// representation invariant (package indh) - covers histories of any length
 			indShapes := histShapes
 			if tier == "thorough" {
-				indShapes = append(append([]histShape{}, histShapes...), histShapesThorough...)
+				// the three-task shapes; not two-globs: its inductive step (two tasks, each with an
+				// arbitrary earlier state of two glob files) ran for more than 40 minutes
+				// without finishing and is not claimed
+				indShapes = append(append([]histShape{}, histShapes...), byName("three-tasks", "three-chain")...)
 			}
 			out = append(out, indJobs(indShapes)...)
 			// every feature together on short histories
@@ -167,7 +170,7 @@ func histCheck(id, title string, force, crash int, explain string) *checkDef {
 			out = append(out, histJobsX(byName("two-file-tasks", "chain"), 2, 0, 0, 0, 1, 1)...)
 			if tier == "thorough" {
 				out = append(out, histJobsX(byName("two-file-tasks"), 3, 0, 0, 0, 1, 0)...)
-				out = append(out, histJobsX(byName("two-file-tasks", "chain", "file-task+no-dep-task", "shared-file"), 3, 1, 0, 0, 1, 1)...)
+				out = append(out, histJobsX(byName("chain"), 3, 0, 0, 0, 1, 0)...)
 				out = append(out, histJobs(byName("two-file-tasks"), 3, 0, 0, 0)...)
 				out = append(out, histJobs(byName("two-file-tasks"), 3, 1, 0, 0)...)
 				out = append(out, histJobs(histShapesThorough, 2, 1, 0, 1)...)
